@@ -98,6 +98,35 @@ Example c08_history_example :
   hrun s0 ops = ([mk_hrow 2 0 (Some 5); mk_hrow 3 0 (Some 8)], [[1]; [3]; [1; 2; 3]; [1]; [1]]).
 Proof. vm_compute. reflexivity. Qed.
 
+(* WRITES THAT NAME THEIR RECORDS THROUGH THE MODEL / DELETE VALUE (one record, or a slice of 0, 1, 2...
+   records, single or composite key): [HKeys l] - the keys of the records that have one become a key
+   condition, a slice in which no record has a key adds none.  All the theorems above hold for these
+   conditions too (they quantify over every condition); in particular, for every table, slice and
+   condition of the caller's own: the write changes only live rows that satisfy the caller's condition
+   and are named by the slice; a slice that names only marked records changes nothing, reports 0. *)
+Theorem c08_slice_named_update_scope : forall s l q v r, In r s ->
+  In r (fst (hstep s (OUpdate (HAnd (HKeys l) q) v))) \/
+  (live r = true /\ rholds q r = true /\ (named_keys l = [] \/ In (hid r) (named_keys l))).
+Proof. exact keys_update_scope. Qed.
+Print Assumptions c08_slice_named_update_scope.
+Theorem c08_slice_named_delete_scope : forall s l q t r, In r s ->
+  In r (fst (hstep s (ODelete (HAnd (HKeys l) q) t))) \/
+  (live r = true /\ rholds q r = true /\ (named_keys l = [] \/ In (hid r) (named_keys l))).
+Proof. exact keys_delete_scope. Qed.
+Print Assumptions c08_slice_named_delete_scope.
+Theorem c08_write_naming_marked_records_is_noop : forall s l q v t,
+  named_keys l <> [] ->
+  (forall r, In r s -> In (hid r) (named_keys l) -> live r = false) ->
+  hstep s (OUpdate (HAnd (HKeys l) q) v) = (s, [0]) /\ hstep s (ODelete (HAnd (HKeys l) q) t) = (s, [0]).
+Proof. exact keys_of_marked_noop. Qed.
+Print Assumptions c08_write_naming_marked_records_is_noop.
+
+Example c08_slice_named_example :
+  let s0 := [mk_hrow 1 0 None; mk_hrow 101 0 (Some 5); mk_hrow 3 0 None] in
+  hrun s0 [OUpdate (HKeys [101]) 9; OUpdate (HKeys [0; 3]) 7; ODelete (HKeys []) 8; OUUpdate (HKeys [101; 1]) 2]
+  = ([mk_hrow 1 2 (Some 8); mk_hrow 101 2 (Some 5); mk_hrow 3 7 (Some 8)], [[0]; [1]; [2]; [2]]).
+Proof. vm_compute. reflexivity. Qed.
+
 (* ---- association paths (C08_Assoc: the functions the checker runs on the fixture of every third
    case).  For every related table, parent key, caller condition and ON condition: ---- *)
 
